@@ -16,6 +16,8 @@ use tower_resilience_circuitbreaker::{
 pub struct Adapter {
     call: Box<dyn FnMut(Req) -> Option<CallFut>>,
     ctl: Box<dyn Fn(&str) -> String>,
+    /// a self-contained caller (owns a clone of the breaker) for requests made from inside a destructor (`manual ondrop`)
+    req: Requester,
 }
 
 /// Scripted behaviour of the fallback of caller `c` (`arrive <c> … fb=<lat>:<ok|errK|panic|never>`, default `0:ok`):
@@ -132,6 +134,29 @@ macro_rules! caller {
     }};
 }
 
+/// `manual ondrop c=<c> by=<c2> <arrive words>`: c2 arrives — clone of the breaker, `poll_ready`, `call`, exactly as
+/// `arrive` does — from inside the destructor of the unfinished inner call of c, i.e. while a cancelled call (a trial of a
+/// half-open episode, or an ordinary call) is still being torn down inside the wrapped service.
+macro_rules! requester {
+    ($svc:expr) => {{
+        let svc = $svc.clone();
+        std::rc::Rc::new(move |c: usize, kv: &Kv| -> Option<CallFut> {
+            if let Some(step) = kv.get("fb").and_then(|s| parse_plan(s).pop_front()) {
+                FB.lock().unwrap_or_else(|e| e.into_inner()).insert(c, step);
+            }
+            let mut s = svc.clone();
+            match poll_ready_once(&mut s) {
+                std::task::Poll::Ready(Ok(())) => {}
+                _ => {
+                    log(format!("result {} notready", c));
+                    return None;
+                }
+            }
+            Some(held(s.call(Req::new(c, kv)), render))
+        }) as Requester
+    }};
+}
+
 impl Adapter {
     pub fn new(kv: &Kv) -> Adapter {
         FB.lock().unwrap_or_else(|e| e.into_inner()).clear();
@@ -167,9 +192,9 @@ impl Adapter {
             let svc = b.build().layer_fn(Inner::new());
             if fallback {
                 let svc = svc.with_fallback(fb);
-                Adapter { call: caller!(svc), ctl: controls!(svc) }
+                Adapter { call: caller!(svc), ctl: controls!(svc), req: requester!(svc) }
             } else {
-                Adapter { call: caller!(svc), ctl: controls!(svc) }
+                Adapter { call: caller!(svc), ctl: controls!(svc), req: requester!(svc) }
             }
         } else {
             // custom classifiers: 1 = only error kind 1 is a failure; 2 = errors and responses to odd tags are failures
@@ -182,9 +207,9 @@ impl Adapter {
             let svc = b.build().layer_fn(Inner::new());
             if fallback {
                 let svc = svc.with_fallback(fb);
-                Adapter { call: caller!(svc), ctl: controls!(svc) }
+                Adapter { call: caller!(svc), ctl: controls!(svc), req: requester!(svc) }
             } else {
-                Adapter { call: caller!(svc), ctl: controls!(svc) }
+                Adapter { call: caller!(svc), ctl: controls!(svc), req: requester!(svc) }
             }
         }
     }
@@ -196,6 +221,9 @@ impl Mw for Adapter {
             FB.lock().unwrap_or_else(|e| e.into_inner()).insert(c, step);
         }
         (self.call)(Req::new(c, kv))
+    }
+    fn requester(&self) -> Option<Requester> {
+        Some(self.req.clone())
     }
     fn probe(&mut self, what: &str, _kv: &Kv) {
         let s = (self.ctl)(what);
